@@ -19,7 +19,11 @@ VARIABLES tid, l, rejected, prev
 pvars == <<tid, l, rejected, prev>>
 NoPrev == [t |-> "noprev"]
 
+\* unions: the value machine carries no tags, so only what does not depend on them is specified for union-typed arrays
+UnionSafe(ev) == \/ ev.op \in {"rt_buffers", "rt_pickle", "rt_json", "rt_iter", "same", "concat0", "mask"}
+                 \/ ev.op = "flatten" /\ ev.args.axis = AxisNone
 Expected(ev) ==
+  IF HasUnion(ev.T) /\ ~UnionSafe(ev) THEN Unspec ELSE
   LET a == ev.args IN
   CASE ev.op = "num" -> VAxisOp([n |-> "num"], ev.v, ev.T, a.axis)
     [] ev.op = "localindex" -> VAxisOp([n |-> "localindex"], ev.v, ev.T, a.axis)
